@@ -328,8 +328,29 @@ class _Inliner:
         self.count = 0
 
     def new_helpers(self):
-        """{(kind, owner, name): FunctionDef} for functions not in the inventory"""
+        """{(kind, owner, name): FunctionDef} for functions not in the inventory.
+        A new name in a scope from which an inventory function has vanished is taken for a RENAME of that function and keeps its
+        identity (rules find functions by role as well as by name); only names added on top of the reviewed ones are helpers."""
         out = {}
+        present = set()
+        for n in ast.walk(self.tree):
+            pass
+        def quals(body, prefix):
+            for n in body:
+                if isinstance(n, ast.ClassDef):
+                    quals(n.body, prefix + n.name + ".")
+                elif isinstance(n, FUNC):
+                    present.add(prefix + n.name)
+                    for c in ast.walk(n):
+                        if isinstance(c, FUNC) and c is not n:
+                            present.add(prefix + n.name + "." + c.name)
+        quals(self.tree.body, "")
+        vanished_scopes = set()
+        for fq in self.inv:
+            mod, qual = fq.split(":")
+            if mod == self.modname and qual not in present:
+                vanished_scopes.add(qual.rsplit(".", 1)[0] if "." in qual else "")
+        self.vanished_scopes = vanished_scopes
 
         def visit(body, prefix, cls, parent_fn):
             for n in body:
@@ -337,6 +358,9 @@ class _Inliner:
                     visit(n.body, prefix + n.name + ".", n.name if cls is None else cls, parent_fn)
                 elif isinstance(n, FUNC):
                     qual = prefix + n.name
+                    if prefix.rstrip(".") in vanished_scopes:
+                        nested(n, prefix + n.name + ".", cls, n)
+                        continue
                     if f"{self.modname}:{qual}" not in self.inv and not n.decorator_list or \
                             (f"{self.modname}:{qual}" not in self.inv and all(isinstance(d, ast.Name) and d.id == "staticmethod" for d in n.decorator_list)):
                         static = any(isinstance(d, ast.Name) and d.id == "staticmethod" for d in n.decorator_list)
